@@ -54,9 +54,9 @@ def gen_sync_node(rng):
     return {"kind": "sliding_window", "n": 2, "partial": True}
 
 
-def gen_pipeline(rng, kinds, allow_zip=True, two_async=0.3, sink_async=0.7):
+def gen_pipeline(rng, kinds, allow_zip=True, two_async=0.3, sink_async=0.7, p_zip=0.15):
     nodes = [{"kind": "source", "ups": []}]
-    if allow_zip and rng.random() < 0.15:
+    if allow_zip and rng.random() < p_zip:
         nodes.append({"kind": "source", "ups": []})
         nodes.append({"kind": "zipmax", "ups": [0, 1], "maxsize": rng.choice([1, 2])})
         last = 2
@@ -101,6 +101,8 @@ def choose_op(rng, run, nodes, st, opts):
     if pend and r < 0.28:
         return {"op": "sinkdone", "tok": rng.choice(pend)}
     if jobs and r < 0.5:
+        if rng.random() < opts.get("p_jobfail", 0.0):
+            return {"op": "jobfail", "job": rng.choice(jobs)}
         return {"op": "jobdone", "job": rng.choice(jobs)}
     if r < 0.68 or not can_emit:
         return {"op": "advance", "dt": rng.choice([0.25, 0.25, 0.5, 1, 1, 2])}
@@ -108,6 +110,9 @@ def choose_op(rng, run, nodes, st, opts):
     st["tag"] += 1
     st["ref"] += 1
     src = rng.choice(sources)
+    if len(sources) > 1 and st.get("last_src") is not None and rng.random() < 0.6:
+        src = st["last_src"]        # let one producer of a zip run ahead of the other
+    st["last_src"] = src
     val = st["val"] if not opts.get("small_alphabet") else rng.choice([0, 1, 2, 3])
     return {"op": "emit", "node": src, "val": val, "md": [{"tag": st["tag"], "ref": st["ref"]}]}
 
@@ -229,6 +234,7 @@ def reference_case(case):
             nd = {"kind": "map", "f": ["pair1"], "ups": nd["ups"]}
         elif k == "sink":
             nd["mode"] = "sync"
+            nd.setdefault("f", ["id"])
         nodes.append(nd)
     ops = [dict(op, md=[]) for op in case["ops"] if op["op"] == "emit"]
     return {"mode": "sync", "nodes": nodes, "ops": ops}
@@ -268,7 +274,7 @@ def upstream_chain(nodes, i):
 def oracle_lossless(case, obs):
     """C02: every sink receives exactly what the synchronous semantics prescribe, once, in order."""
     nodes = case["nodes"]
-    if any(n["kind"] in LOSSY for n in nodes):
+    if any(n["kind"] in LOSSY for n in nodes) or any(op["op"] == "jobfail" for op in case["ops"]):
         return []
     ref = reference_case(case)
     # batching nodes: compare element sequences
@@ -370,6 +376,13 @@ class Holders:
                 self.consumers[e[2]] = prev[4]
         if op["op"] in ("sinkdone", "sinkfail"):
             self.consumers.pop(op["tok"], None)
+        for e in o["log"]:
+            if e[0] == "jobstart":
+                self.jobs[e[2]] = (e[1], e[3])
+        if op["op"] == "jobfail" and op["job"] in self.jobs:
+            d, val = self.jobs[op["job"]]
+            # the failed element is logged and dropped by map_async: it is no longer "held"
+            self.inside[d] = [it for it in self.inside.get(d, []) if graphlib.canon(it[2]) != val]
 
     def holding(self, tag):
         out = []
@@ -388,9 +401,23 @@ def oracle_early_callback(case, obs):
     owner, ref_tag = tag_owner(case)
     h = Holders(nodes)
     problems = []
+    job_val = {}            # job id -> (node, value)
+    arr_tags = {}           # (node, repr(value)) -> tags
+    failed_tags = set()
     for k, (op, o) in enumerate(zip(case["ops"], obs)):
         h.feed(op, o)
         for e in o["log"]:
+            if e[0] == "jobstart":
+                job_val[e[2]] = (e[1], repr(e[3]))
+            elif e[0] == "arrive":
+                arr_tags[(e[1], repr(e[3]))] = e[4]
+        if op["op"] == "jobfail" and op["job"] in job_val:
+            failed_tags |= set(arr_tags.get(job_val[op["job"]], []))
+        for e in o["log"]:
+            if e[0] == "fire" and ref_tag.get(e[1]) in failed_tags:
+                problems.append(("failed-callback:map_async", "op %d %r: the completion callback of ref %d fired although the mapped coroutine raised for its element"
+                                 % (k, op, e[1])))
+                return problems
             if e[0] == "fire":
                 who = h.holding(ref_tag.get(e[1]))
                 who = [w for w in who if "(latest)" not in w or True]
